@@ -437,6 +437,8 @@ def pipe_relay(world, scn, obs):
                 self.returncode = 0
                 return b'', b''
             self.returncode = 75 if verdict == 'temp' else 1
+            if verdict == 'temp' and var == 2:
+                self.returncode = -9       # killed by a signal
             txt = ('4.%d.0 temporary failure v%d' if verdict == 'temp' else
                    '5.%d.0 permanent failure v%d') % (var % 8, var)
             if rec is not None:
@@ -677,6 +679,28 @@ def obs_queue_class():
     return ObsQueue
 
 
+def tag_policy_class():
+    from slimta.policy import QueuePolicy
+
+    class TagPolicy(QueuePolicy):
+        """harness-provided queue policy placed behind RecipientSplit: gives
+        every single-recipient copy its own X-Sim-Msg marker
+        (100*(k+1)+index of the recipient), so that each stored envelope is a
+        message of its own for the oracles"""
+
+        def __init__(self, parents):
+            self.parents = parents      # k -> original recipient list
+
+        def apply(self, envelope):
+            k = marker_of(envelope)
+            if k in self.parents and len(envelope.recipients) == 1:
+                j = self.parents[k].index(envelope.recipients[0])
+                del envelope.headers['X-Sim-Msg']
+                envelope.headers['X-Sim-Msg'] = str(100 * (k + 1) + j)
+
+    return TagPolicy
+
+
 def new_obs():
     return {'store_ops': [], 'attempts': [], 'bounces': [], 'announces': [],
             'id_k': {}, 'accepted': {}, 'flushes': [], 'enqueue_errors': [],
@@ -730,6 +754,13 @@ def build(world, scn, obs, fs=None, counts=None, bounces=0):
           bounce_queue=bq, store_pool=scn.get('store_pool'),
           relay_pool=scn.get('relay_pool'))
     q.obs, q.world, q.role = obs, world, 'main'
+    parents = {m['k']: list(m['rcpts']) for m in scn['messages']
+               if m.get('split')}
+    if parents:
+        from slimta.policy.split import RecipientSplit
+        q.add_policy(RecipientSplit())
+        q.add_policy(tag_policy_class()(parents))
+        world.probe('split-policy')
     return {'queue': q, 'bounce_queue': bq, 'store': store, 'relay': relay,
             'sub': sub, 'OS': OS, 'Q': Q, 'backoff': backoff}
 
@@ -786,9 +817,10 @@ def run(world, scn):
                 obs['enqueue_errors'].append((m['k'], type(id).__name__,
                                               str(id)))
             else:
-                obs['accepted'][m['k']] = {'id': _norm(id),
-                                           't': world.loop._now,
-                                           'how': m.get('how', 'enqueue')}
+                kk = marker_of(e2)
+                obs['accepted'][kk if kk is not None else m['k']] = {
+                    'id': _norm(id), 't': world.loop._now,
+                    'how': m.get('how', 'enqueue')}
         world.log('ENQ', m['k'], 'returned')
 
     def do_flush(i):
@@ -803,7 +835,7 @@ def run(world, scn):
 
     drivers = []
     for m in scn['messages']:
-        if m.get('how') == 'preload':
+        if m.get('how') in ('preload', 'sub'):
             continue
         drivers.append(gevent.spawn_later(m.get('at', 0.0), do_enqueue, m))
     for i, op in enumerate(scn.get('ops') or []):
